@@ -522,6 +522,102 @@ def zombie_part(ctx):
     return len(tasks), len(outs), viols
 
 
+# ---------------------------------------------------------------- the fault falls inside the constructor
+C_QUERIES = ("m:ppid", "parent", "parents", "children", "children_r", "as_dict1:ppid",
+             "set:affinity0", "set:nice", "set:ionice", "set:rlimit")
+
+
+def cbase(seed, who):
+    """the accesses of Process(pid) itself (0-deviation run)"""
+    return ctask((seed, who, (), "vanish", "running-first"))["accesses"]
+
+
+def ctask(arg):
+    """the deviation happens while the OBJECT IS BEING MADE (plan over the constructor's own accesses); if an object results,
+    the process then goes away (`later` = vanish: just gone / recycle: gone and the pid handed to a newcomer with a child) before
+    the object is asked anything else.  Demanded: is_running() is False, and the queries raise NoSuchProcess with the object's
+    pid (all of them when the pid is free; the identity-guarded ones when a newcomer owns it), in either order of asking."""
+    seed, who, plan, later, order = arg
+    import psutil
+    n = ids(seed)
+    pid = n[who]
+    w = mk_world(seed)
+    use_world(w)
+    hook = PlanHook(plan, apply_dev)
+    w.hook = hook
+    w.logging = False
+    try:
+        made = outcome(psutil.Process, pid)
+    finally:
+        w.hook = None
+    res = {"accesses": list(hook.accesses), "viols": [], "made": made[0] == "ok", "applied": list(hook.applied)}
+    kinds = {d for _, d in hook.applied}
+    if made[0] != "ok":
+        cls, info = made[1], made[2]
+        if cls not in PSUTIL_ERRS:
+            res["viols"].append(("ctor:leak:%s" % cls, "Process(%d) leaked %s %r under %r" % (pid, cls, info, sorted(kinds))))
+        elif info.get("pid") != pid:
+            res["viols"].append(("ctor:wrong-pid:%s" % cls, "Process(%d) raised %s pid=%r" % (pid, cls, info.get("pid"))))
+        elif not kinds:
+            res["viols"].append(("ctor:unexplained:%s" % cls, "Process(%d) raised %s with no fault" % (pid, cls)))
+        return res
+    obj = made[1]
+    # the process of this object goes away
+    w.vanish(pid)
+    if later == "recycle":
+        w.spawn(pid, ppid=1, comm=b"newcomer", start=9000)
+        w.spawn(n["T1"], ppid=pid, comm=b"newkid", start=9500)
+    tagc = "ctor-fault:%s" % later
+
+    def nsp(label, o2):
+        if not (o2[0] == "exc" and o2[1] == "NoSuchProcess" and o2[2].get("pid") == pid):
+            res["viols"].append(("%s:later-query-not-NSP:%s" % (tagc, label),
+                                 "object made under %r, process then gone (%s): %s -> %r instead of NoSuchProcess(pid=%d)"
+                                 % (sorted(kinds), later, label, freeze(o2), pid)))
+
+    def running():
+        o2 = outcome(obj.is_running)
+        if o2 != ("ok", False):
+            res["viols"].append(("%s:is_running-after-gone" % tagc,
+                                 "object made under %r, process then gone (%s): is_running() -> %r"
+                                 % (sorted(kinds), later, freeze(o2))))
+
+    if order == "running-first":
+        running()
+    if later == "vanish":
+        for nm in sorted(psutil._as_dict_attrnames - CACHED_OK):
+            nsp(nm, outcome(getattr(obj, nm)))
+    for q in C_QUERIES:
+        nsp(q, outcome(do_op, psutil, q, obj))
+    running()
+    return res
+
+
+def ctor_part(ctx):
+    seed = ctx.seed % 1000
+    tasks = []
+    for who in ("P", "C"):
+        acc = cbase(seed, who)
+        plans = [()]
+        for i, (kind, subj, apid) in enumerate(acc):
+            if apid is None or kind == "kill":
+                continue
+            devs = tuple(d for d in DEVS if d != "recycle")      # (recycled DURING construction: whose object it is is not defined)
+            if kind in ("open", "readlink", "listdir") and isinstance(subj, str) and not subj.endswith("/stat"):
+                devs += ("nofile",)
+            plans += [((i, d),) for d in devs]
+        for plan in plans:
+            for later in ("vanish", "recycle"):
+                for order in ("running-first", "queries-first"):
+                    tasks.append((seed, who, plan, later, order))
+    viols, outs = [], set()
+    for t, r in zip(tasks, ctx.pmap(ctask, tasks)):
+        outs.add((t[1], t[2][0][1] if t[2] else None, r["made"], t[3]))
+        for c, m in r["viols"]:
+            viols.append({"cause": c, "msg": m, "case": {"ctor_subject": [t[0], t[1], [list(x) for x in t[2]], t[3], t[4]]}})
+    return len(tasks), len(outs), viols
+
+
 def run(ctx):
     import psutil
     from vf.simk import calibrate
@@ -582,8 +678,13 @@ def run(ctx):
     nz, dz, zv = zombie_part(ctx)
     viols += zv
     nruns += nz
+    nc, dc, cv = ctor_part(ctx)
+    viols += cv
+    nruns += nc
+    dz += dc
     cov = {
         "zombie_subject_runs": nz,
+        "ctor_fault_runs": nc,
         "evaluations": nruns,
         "distinct_nontrivial": len(distinct) + dz,
         "rule": "one evaluation = one execution of a Process operation on the real code inside the simulated "
@@ -605,6 +706,11 @@ def run(ctx):
 
 
 def replay(ctx, case):
+    if "ctor_subject" in case:
+        z = case["ctor_subject"]
+        r = ctask((z[0], z[1], tuple(tuple(x) for x in z[2]), z[3], z[4]))
+        v = r["viols"]
+        return {"violated": bool(v), "cause": v[0][0] if v else None, "msg": v[0][1] if v else None}
     if "zombie_subject" in case:
         z = case["zombie_subject"]
         r = ztask((z[0], z[1], z[2], tuple(tuple(x) for x in z[3])))
